@@ -1,7 +1,7 @@
 """Property registry: which contract modules serve which property, and what
 each claim leaves unverified (text copied into every evidence file)."""
 
-ALL_MODULES = ["contracts.c17"]
+ALL_MODULES = ["contracts.c17", "contracts.c12", "contracts.c13"]
 
 SPECS = {
     "C17": {
@@ -10,5 +10,19 @@ SPECS = {
         "level_note": "Trusted: z3/cvc5; the VC generator (guarded by replay, vacuity checks, mutation self-test); onnx_ir.DataType predicates tabulated at run time; pow2 axioms; Cast axiom 'a value representable in the target is cast to itself'.",
         "design_ref": "DESIGN.md §4.17",
         "unverified_part": "ONNX Runtime's Cast kernels (axiomatised: a value representable in the target type is cast to itself); float8/float4 formats (the code never accepts them, so no claim is needed).",
+    },
+    "C12": {
+        "modules": ALL_MODULES,
+        "level_text": "Index validation is proved with an inductive loop invariant for index lists of any length and any mix of int/bool/str/None entries: a normal return implies the result equals the input, all entries are proper ints in range and pairwise distinct; only ValueError may escape. The two boundary permutations are proved mutually inverse.",
+        "level_note": "Trusted: z3/cvc5, the VC generator. Not covered yet in this revision: _LayoutAdapter.bind_input/bind_output builder calls and the optimizer transactions on boundary transposes (C02).",
+        "design_ref": "DESIGN.md §4.12",
+        "unverified_part": "_LayoutAdapter.bind_input/bind_output (builder-emitted Transpose nodes), allclose layout handling, optimizer folding of the boundary transposes.",
+    },
+    "C13": {
+        "modules": ALL_MODULES,
+        "level_text": "apply_patches, apply_monkey_patches, _force_jax_x64 and _temporary_x64 are executed symbolically as generator context managers, with the with-body as a havoc point that may raise; for every normal and exceptional exit (each point where resolving, reading, wrapping or installing an attribute can fail) every attribute resolves as before, _PATCH_STATE is as before and the x64 flag is as before. Unbounded in the number of specs/targets (ghost history + loop invariants).",
+        "level_note": "Trusted: the python attribute model of specs/pyheap.py (own dict + fixed inherited layer), LIFO discipline of nested with-bodies, jax.config.update writes one cell, values made by patch factories are ordinary objects. JAX jit/pjit caches and user-object mutation are out of reach.",
+        "design_ref": "DESIGN.md §4.13",
+        "unverified_part": "ExitStack composition in _activate_plugin_worlds/_activate_full_plugin_worlds_for_body (assumed PEP 343), JAX trace/compilation caches, mutation of user model objects, ad.primitive_transposes backfill.",
     },
 }
